@@ -22,7 +22,7 @@ pub const INFO: PropInfo = PropInfo {
         "requests whose routing outcome is ambiguous under C01's two readings are not judged here",
         "when the innermost participant on a 404 is a FangAction (which cannot see the request on the way out) only the outbound trace is compared",
     ],
-    expected_probes: &["c04.handler_with_local_fangs", "c04.miss_inside_mount", "c04.miss_outside_mounts", "c04.stopped", "c04.three_apps_on_chain", "c04.yielding_fang_ran", "c04.single_child_mount"],
+    expected_probes: &["c04.handler_with_local_fangs", "c04.miss_inside_mount", "c04.miss_outside_mounts", "c04.stopped", "c04.three_apps_on_chain", "c04.yielding_fang_ran", "c04.single_child_mount", "c04.fang_only_mounted_app", "c04.request_under_a_mount_prefix_with_fang_only_app"],
 };
 
 #[derive(Clone, Debug, Serialize, Deserialize)]
@@ -117,6 +117,33 @@ fn execute(sc: &Scenario, out: &mut Outcome) {
     if single_child_mount(&sc.app) {
         out.hazard("mount-is-single-child");
         out.probe("c04.single_child_mount");
+    }
+    {
+        // mounted applications that consist of fangs only (no route anywhere inside)
+        fn has_route(a: &AppSpec) -> bool {
+            a.items.iter().any(|it| match it {
+                appgen::Item::Routes { .. } => true,
+                appgen::Item::Mount { app, .. } => has_route(app),
+            })
+        }
+        fn walk(a: &AppSpec, root: bool, found: &mut bool) {
+            if !root && !a.fangs.is_empty() && !has_route(a) {
+                *found = true;
+            }
+            for it in &a.items {
+                if let appgen::Item::Mount { app, .. } = it {
+                    walk(app, false, found);
+                }
+            }
+        }
+        let mut found = false;
+        walk(&sc.app, true, &mut found);
+        if found {
+            out.probe("c04.fang_only_mounted_app");
+            if sc.conns.iter().flatten().any(|r| r.kind == "under-mount-prefix") {
+                out.probe("c04.request_under_a_mount_prefix_with_fang_only_app");
+            }
+        }
     }
     let built = std::panic::catch_unwind(std::panic::AssertUnwindSafe(|| appgen::build(&sc.app)));
     let o1 = match built {
